@@ -1,2 +1,56 @@
-From GB Require Import Bucket BucketOpen Gc.
-Example C07_placeholder : True. Proof. exact I. Qed.
+(* C07 -- a process kill during GC leaves every key readable with its pre-GC value.
+   Property theorems only; proofs live in proofs/GcView.v; the kill model is model/CheckGcSplit.v. *)
+From Coq Require Import NArith ZArith List Bool String.
+From GB Require Import Consts Words Hash Compress Bucket BucketOpen Gc CheckL2 CheckGcSplit RefMap Refine CollideProofs GcView.
+Import ListNotations.
+Open Scope N_scope.
+
+(* (1) INSIDE THE RUNNING PROCESS the pass is safe at every record boundary: the loop invariant GI (GcView.v) is
+   preserved by every per-record step -- drop, copy, destination switch, in-place overwrite -- and GI says that
+   every key still reads its pre-GC entry and that no data write of the pass has touched a record the index
+   references or that is still to be processed. *)
+Theorem C07_record_step_keeps_invariant : forall cf hf K,
+  (forall k1 k2, In k1 K -> In k2 K -> hf k1 = hf k2 -> k1 = k2) -> 0 < c_splitcap cf ->
+  forall b0 begin_ st src e R, GI cf hf K b0 st src (e :: R) -> GI cf hf K b0 (gc_record cf hf begin_ src st e) src R.
+Proof. exact gc_record_inv. Qed.
+Print Assumptions C07_record_step_keeps_invariant.
+
+Theorem C07_invariant_means_same_reads : forall cf hf K b0 st src R,
+  GI cf hf K b0 st src R -> forall k, In k K -> abs hf (gc_b st) k = abs hf b0 k.
+Proof. intros cf hf K b0 st src R H. apply H. Qed.
+Print Assumptions C07_invariant_means_same_reads.
+
+(* (2) ACROSS A KILL the property is REFUTED for the code as it stands (known finding F4): GC rewrites the first
+   file of the range in place and truncates its stale tail only when it leaves the file or finishes; later source
+   files are drained into it and removed.  Layout [J1 K1][K2 K3][J2 M][Z] (512-byte files), gc(0,2), killed when
+   files 0 and 1 are done: file 0 holds K3 at offset 0 and, behind it, the stale K1; file 1 is gone.  The index
+   rebuilt at start-up scans file 0 in offset order, so K1 wins: key K, never written during the pass, reverts
+   from k3 (version 3) to k1 (version 1).  Evaluated on the kill model; replayed on the implementation by the
+   crash suite. *)
+Definition f4_lc : l2cfg := mkL2 (mkCfg 512 4096 16 false 3 false 1) [] 0.
+Definition f4_z : zinfo := mkZ true 0 0.
+Definition f4_ops : list l2op :=
+  [OSet "4a" "6a31" 0 0 1 f4_z; OSet "4b" "6b31" 0 0 2 f4_z; OSet "4b" "6b32" 0 0 3 f4_z; OSet "4b" "6b33" 0 0 4 f4_z;
+   OSet "4a" "6a32" 0 0 5 f4_z; OSet "4d" "6d31" 0 0 6 f4_z; OSet "5a" "7a31" 0 0 7 f4_z; OFlush].
+
+Theorem C07_stale_tail_refuted :
+  exists b b', run_b f4_lc bucket0 f4_ops = Some b /\
+    (exists ts p, snd (bkt_get (forced_hash []) b (unhex "4b")) = GHit (unhex "6b33") 0 3 ts p) /\
+    kill_gc_files_reopen f4_lc b 0 2 = Opened b' /\
+    (exists ts p, snd (bkt_get (forced_hash []) b' (unhex "4b")) = GHit (unhex "6b31") 0 1 ts p).
+Proof.
+  eexists. eexists. split; [vm_compute; reflexivity|]. split; [eexists; eexists; vm_compute; reflexivity|].
+  split; [vm_compute; reflexivity|]. eexists. eexists. vm_compute. reflexivity.
+Qed.
+Print Assumptions C07_stale_tail_refuted.
+
+(* the same pass killed right after any single copy (before the index update) is harmless on this layout: the
+   source record is still there and wins the rebuild *)
+Example C07_kill_after_copy_on_witness :
+  forall n, In n [0; 1; 2]%nat ->
+  exists b b', run_b f4_lc bucket0 f4_ops = Some b /\ kill_gc_reopen f4_lc b 0 2 n = Some (Opened b') /\
+    (exists ts p, snd (bkt_get (forced_hash []) b' (unhex "4b")) = GHit (unhex "6b33") 0 3 ts p).
+Proof.
+  intros n Hn. cbn [In] in Hn. destruct Hn as [<-|[<-|[<-|[]]]];
+    (eexists; eexists; split; [vm_compute; reflexivity|]; split; [vm_compute; reflexivity|]; eexists; eexists; vm_compute; reflexivity).
+Qed.
